@@ -1,5 +1,6 @@
 #!/bin/sh
-# Offline setup: third-party helper (icontract) beside the repository's interpreter.
+# Offline setup: third-party helper (icontract) beside the repository's interpreter + self-tests of the
+# reference models / oracles (hand-computed cases).
 set -e
 cd "$(dirname "$0")"
 if [ ! -d .deps/icontract ]; then
@@ -7,4 +8,9 @@ if [ ! -d .deps/icontract ]; then
   /venv/bin/pip install --no-index --find-links /opt/veriftools/wheels --target .deps icontract
 fi
 mkdir -p evidence replay
-/venv/bin/python -c "import sys; sys.path[:0]=['.deps','/repo/python']; import icontract, experiment; print('setup ok', icontract.__version__)"
+export PYTHONPATH="$PWD/.deps:$PWD:${VERIF_REPO:-/repo}/python" PYTHONDONTWRITEBYTECODE=1 PYTHONWARNINGS=ignore
+/venv/bin/python -c "import icontract, experiment; print('setup ok', icontract.__version__)"
+/venv/bin/python selftest/test_oracles.py
+/venv/bin/python -m ref.c04_layering >/dev/null
+/venv/bin/python -m ref.c17_environment >/dev/null
+echo "selftests ok"
